@@ -78,7 +78,7 @@ func fourWays1(part *ev.Part, s pb.Snap, sizeHint int, label string, classes map
 	if err != nil || g5.String() != want {
 		r.Violate(part.Name, "roundtrip-dump-load", fmt.Sprintf("%s: DumpData->LoadData: err=%v\n got  %s\n want %s", label, err, trunc(g5.String()), trunc(want)), repl)
 	}
-	classes[fmt.Sprintf("%d/%d", len(s.DBIs), len(enc) > 127)] = true
+	classes[fmt.Sprintf("%d/%v", len(s.DBIs), len(enc) > 127)] = true
 }
 
 func trunc(s string) string {
@@ -90,6 +90,10 @@ func trunc(s string) string {
 
 func main() {
 	flag.Parse()
+	if v, ok := ev.ReplayRequested(); ok {
+		fmt.Printf("  this check enumerates inputs; the replay artefact names the failing input directly: %v\n", v.Replay)
+		return
+	}
 	r = ev.Start("C07")
 	defer r.RecoverMain()
 	defer world.Cleanup()
